@@ -130,20 +130,24 @@ def roland_payload():
     # a reverse-mode sample and a sample whose start point is not 0 (windows derived from the points)
     samples[4].update(name="BACK", mode=5, points=[7, 7, 250, 7, 100])
     samples[5].update(name="LATE", mode=2, points=[40, 40, 290, 40, 100])
+    # two samples living in ONE fragmented cluster chain (told apart by their leading-cluster offset), in different performances
+    samples[6] = {"name": "HALFA", "chain": [20, 23, 21], "cluster_top": 0, "points": [0, 0, 9000, 0, 100], "mode": 2, "seq": 9}
+    samples[7] = {"name": "HALFB", "chain": [20, 23, 21], "cluster_top": 1, "points": [1, 1, 9001, 1, 100], "mode": 2, "seq": 9}
     samples[1]["name"], samples[2]["name"] = "PAD L", "PAD R"
     samples[1]["mode"] = samples[2]["mode"] = 2
     samples[1]["points"] = samples[2]["points"] = [0, 0, 400, 0, 100]
     model = {"volumes": [{"name": "VOLA", "perfs": [0]}, {"name": "VOLB", "perfs": [1]}],
              "performances": {0: {"name": "PERF0", "patches": [0]}, 1: {"name": "PERF1", "patches": [1]}, 2: {"name": "LOST", "patches": [0]}},
-             "patches": {0: {"name": "PATCH0", "partials": [0]}, 1: {"name": "PATCH1", "partials": [1]}},
-             "partials": {0: {"name": "PART0", "samples": [0, 1, 2, 4]}, 1: {"name": "PART1", "samples": [3, 0, 5]}},
+             "patches": {0: {"name": "PATCH0", "partials": [0, 2]}, 1: {"name": "PATCH1", "partials": [1]}},
+             "partials": {0: {"name": "PART0", "samples": [0, 1, 2, 4]}, 1: {"name": "PART1", "samples": [3, 0, 5, 7]},
+                          2: {"name": "PART2", "samples": [6]}},
              "samples": samples}
     return R.build_roland(model)[0]
 
 
 def roland_paths():
     return ["", "VOLA", "VOLB", "_Orphan_perf", "VOLA/PERF0", "VOLB/PERF1", "_Orphan_perf/LOST", "VOLA/PERF0/SMP0",
-            "VOLA/PERF0/PATCH0", "VOLB/PERF1/SMP3", "VOLA/PERF0/PAD L", "VOLA/PERF0/BACK", "VOLB/PERF1/LATE", "nope", "VOLA/nope",
+            "VOLA/PERF0/PATCH0", "VOLB/PERF1/SMP3", "VOLA/PERF0/PAD L", "VOLA/PERF0/BACK", "VOLB/PERF1/LATE", "VOLA/PERF0/HALFA", "VOLB/PERF1/HALFB", "nope", "VOLA/nope",
             "VOLA/PERF0/SMP0/x"]
 
 
@@ -266,7 +270,7 @@ class Check(CheckBase):
     level = "model_checking"
     title = "Results depend only on the image bytes, not on what was looked at before"
     rule = ("per image (AKAI: 2 partitions x 2 volumes, L/R pair, fragmented chains, a program, a file filling its last "
-            "sector; Roland: 2 volumes + orphan performance, shared sample, reverse mode, start point > 0, L/R pair; CDDA: duplicate and missing "
+            "sector; Roland: 2 volumes + orphan performance, shared sample, reverse mode, start point > 0, two samples in one cluster chain reached through different performances, L/R pair; CDDA: duplicate and missing "
             "titles; AKAI and Roland again as read-only real files; a third AKAI image whose names are sanitised differently by role "
             "(ending in '-' / '.', '+') and where one raw name is a volume in one partition and a sample in another, paths "
             "discovered through its own listings) the alphabet is ls(p) for every node path p, three invalid "
